@@ -48,6 +48,10 @@ var ModSeeds = []string{
 	"module example.com/m\n\ngo 1.20\n\nexclude a.com/x v1.0.0\n\nexclude (\n\ta.com/x v1.0.0\n)\n\nexclude a.com/x v1.0.0 // s1\n\nreplace a.com/x => ../x1\n\nreplace (\n\ta.com/x => ../x2\n)\n\nreplace a.com/x => ../x3 // s2\n",
 	// 18: the same with empty blocks in between and tools
 	"module example.com/m\n\ngo 1.21\n\ntool a.com/x/cmd\n\ntool (\n\ta.com/x/cmd\n)\n\ntool a.com/x/cmd // s1\n\nexclude b.com/y v1.0.0\n\nexclude ()\n\nexclude b.com/y v1.0.0\n\nrequire ()\n\nexclude b.com/y v1.0.0 // s2\n",
+	// something in front of the closing parenthesis: a comment line, a blank line (such a block is never
+	// collapsed into a single line)
+	"module example.com/m\n\nrequire (\n\ta.com/x v1.0.0 // s1\n\tb.com/y v1.0.0 // s2\n\t// end of requirements\n)\n\nexclude (\n\ta.com/x v1.1.0\n\tb.com/y v1.1.0\n\n)\n",
+	"module example.com/m\n\ngo 1.21\n\nreplace (\n\ta.com/x => ../x // s1\n\tb.com/y v1.0.0 => c.com/z v1.2.0\n\t// end\n)\n\nretract (\n\tv1.0.0 // s2\n\tv1.1.0 // s3\n\n\t// no more\n)\n\ntool (\n\ta.com/x/cmd\n\tb.com/y/cmd\n\t// tools end\n)\n",
 }
 
 // ModSeedsTypedOnly are further go.mod seeds for the typed-structure-versus-file check (C15) only: a
@@ -84,6 +88,9 @@ var WorkSeeds = []string{
 	"go 1.21\n\ngodebug panicnil=1 // s1\n\ngodebug (\n\tasynctimerchan=0\n\tpanicnil=0 // s2\n)\n\nuse ./a\n",
 	"go 1.20\n\nuse ./a\n\nreplace a.com/x v1.0.0 => c.com/z v1.2.0 // s1\n\nreplace (\n\ta.com/x => ../x // s2\n\ta.com/x v1.0.0 => c.com/z v1.3.0 // s3\n)\n",
 	"use ./a\n",
+	// something in front of the closing parenthesis: a comment line, a blank line
+	"go 1.21\n\nuse (\n\t./a // s1\n\t./b // s2\n\t// more to come\n)\n",
+	"go 1.21\n\nuse (\n\t./a\n\t./b\n\n)\n\nreplace (\n\ta.com/x => ../x\n\tb.com/y => ../y\n\t// end\n)\n",
 }
 
 // ModOps is the operation alphabet for go.mod (all arguments valid).
